@@ -37,7 +37,7 @@ def run(tier):
     per = 26 if tier == 'quick' else 400
     with mp.get_context('fork').Pool(16) as pool:
         parts = pool.map(rundrv.legs, [(sd * 71 + k, per, wd) for k in range(16)])
-    recs = [x for p in parts for x in p]
+    recs = [x for p in parts for x in p] + rundrv.probe_ay48(wd)
     cases, owners = [], []
     for rec in recs:
         if rec['err']:
@@ -58,6 +58,8 @@ def run(tier):
         key = 'resume:%s:%s%s' % (rec['fmt'], clause, ':tstates-near-2^24' if big and rec['fmt'] == 'szx' else '')
         if sp and sp.get('mid_halt') and '-c' in rec['opts'] and clause == 'frame-position':
             key = 'resume:saved-inside-halt:contended:frame-position'
+        if rec['kind'] == 'ay48':
+            key = 'resume:ay-on-48k:%s:%s' % (rec['fmt'], clause)
         rep.violation(key, 'trace.py %s from %s (start T=%d): %d instructions at once vs %s + snapshot(%s) + rest: %s differs; A=%s B=%s'
                       % (' '.join(rec['opts']), rec['key'], rec['t0'], rec.get('total', 0), sp and sp['n1'], rec['fmt'], clause,
                          sp and {k: v for k, v in sp.items() if k.startswith('a_') and k != 'a_banks' and k != 'a_ay'},
